@@ -18,6 +18,11 @@ def aggref(fn, c, absf=False):
     return {"t": "col", "c": "%s_%s" % (fn, c), "_fn": fn, "_arg": c}
 
 
+def aggref_nth(c, n):
+    """nth_value(c, n): a parameterised aggregate - calls that differ in the parameter only are different aggregates"""
+    return {"t": "col", "c": "nth%d_%s" % (n, c), "_fn": "nth_value", "_arg": "%s, %d" % (c, n), "_col": c, "_p": n}
+
+
 def agg_sql(e):
     """render an AST whose column references are aggregate keys"""
     t = e["t"]
@@ -51,7 +56,7 @@ def strip(e):
 def collect(e, acc):
     if isinstance(e, dict):
         if "_fn" in e:
-            acc[e["c"]] = {"key": e["c"], "fn": "count" if e["_fn"] == "count" else e["_fn"], "arg": e.get("_col", e["_arg"]), "abs": e.get("_abs", 0)}
+            acc[e["c"]] = {"key": e["c"], "fn": "count" if e["_fn"] == "count" else e["_fn"], "arg": e.get("_col", e["_arg"]), "abs": e.get("_abs", 0), "p": e.get("_p", 0)}
         for v in e.values():
             collect(v, acc)
     elif isinstance(e, list):
@@ -74,6 +79,9 @@ def item(rng, shape):
     if shape == 8:     # two aggregates over DIFFERENT expression arguments in one item: each aggregates its own expression
         f1, f2 = rng.choice(["sum", "max", "min", "avg"]), rng.choice(["sum", "max", "min"])
         return {"t": "bin", "op": rng.choice(["+", "-", "*"]), "a": aggref(f1, "v", True), "b": aggref(f2, "w", True)}
+    if shape == 10:    # two calls of a PARAMETERISED aggregate over one column that differ in the parameter only
+        n1, n2 = rng.sample([1, 2, 3], 2)
+        return {"t": "bin", "op": rng.choice(["-", "*", "-"]), "a": aggref_nth(rng.choice(["v", "w"]) if False else "w", n1), "b": aggref_nth("w", n2)}
     if shape == 6: return {"t": "bin", "op": "+", "a": num(1), "b": {"t": "bin", "op": "*", "a": num(2), "b": a}}      # 1 + 2*agg(x)
     return {"t": "bin", "op": "+", "a": {"t": "bin", "op": "*", "a": a, "b": num(2)}, "b": num(1)}      # agg(x)*2+1
 
@@ -82,9 +90,10 @@ def absv(x, d):
     return abs(x) if (d.get("abs") and x is not None) else x
 
 
-def pyagg(fn, vals):
+def pyagg(fn, vals, p=0):
     u = [Fraction(x) for x in vals if x is not None]
     if fn == "count": return Fraction(len(u))
+    if fn == "nth_value": return u[p - 1] if len(u) >= p else None
     if not u: return None
     return {"sum": sum(u), "avg": sum(u) / len(u), "min": min(u), "max": max(u)}[fn]
 
@@ -127,7 +136,7 @@ def mk(rng, nsel, having_kind, norder, limit, distinct, tie_first=False):
     sel = []
     for k in range(nsel):
         # shapes 1 and 5 (an item that STARTS with one aggregate call followed by arithmetic, e.g. avg(v) + 3) are a pinned finding (AggThenArithmeticPerRow)
-        sel.append({"al": "c%d" % k, "e": item(rng, rng.choice([0, 2, 3, 4, 0, 2, 3, 4, 6, 8, 9]))})
+        sel.append({"al": "c%d" % k, "e": item(rng, rng.choice([0, 2, 3, 4, 0, 2, 3, 4, 6, 8, 9, 10]))})
     if distinct and not gsel and rng.random() < 0.5:
         # un-aliased plain aggregates (reported under their text, e.g. max(v)): DISTINCT still sees every delivered column
         sel = [{"al": "%s(%s)" % (f, c), "e": aggref(f, c), "unaliased": 1} for f, c in rng.sample([(f, c) for f in FNS for c in ("v", "w")], nsel)]
@@ -155,7 +164,7 @@ def mk(rng, nsel, having_kind, norder, limit, distinct, tie_first=False):
     if order:
         keyvals = []
         for g in set(r["g"] for r in rows[:n]):
-            env = {k: pyagg(d["fn"], [absv(r.get(d["arg"]), d) for r in rows[:n] if r["g"] == g]) for k, d in defs.items()}
+            env = {k: pyagg(d["fn"], [absv(r.get(d["arg"]), d) for r in rows[:n] if r["g"] == g], d.get("p", 0)) for k, d in defs.items()}
             keyvals.append(tuple(pyeval(strip(ItemE(sel, o["al"])), env) for o in order))
         # the order must be total on the batch: key tuples pairwise different (ties on the FIRST key are welcome when a second key breaks them)
         if any(v is None for kv in keyvals for v in kv) or len(set(keyvals)) != len(keyvals):
@@ -166,7 +175,7 @@ def mk(rng, nsel, having_kind, norder, limit, distinct, tie_first=False):
             o["bare"] = 1 if (o["desc"] == 0 and rng.random() < 0.5) else 0      # ASC is the default: a key may be written without a direction
     # a '+' with a NULL aggregate operand (all inputs of the group NULL) is the pinned finding AggNullPlusIsString: screen it out
     for g in set(r["g"] for r in rows[:n]):
-        env = {k: pyagg(d["fn"], [absv(r.get(d["arg"]), d) for r in rows[:n] if r["g"] == g]) for k, d in defs.items()}
+        env = {k: pyagg(d["fn"], [absv(r.get(d["arg"]), d) for r in rows[:n] if r["g"] == g], d.get("p", 0)) for k, d in defs.items()}
         if any(null_plus(strip(it["e"]), env) for it in sel) or (having is not None and null_plus(strip(having), env)):
             return None
     txt = "SELECT " + ("DISTINCT " if distinct else "") + ("g, " if gsel else "") + ", ".join(agg_sql(it["e"]) if it.get("unaliased") else "%s AS %s" % (agg_sql(it["e"]), it["al"]) for it in sel)
@@ -216,7 +225,7 @@ def mk_multi(rng):
     lo = 0
     for hi_ in bounds:
         for g in set(r["g"] for r in rows[lo:hi_]):
-            env = {k: pyagg(d["fn"], [absv(r.get(d["arg"]), d) for r in rows[lo:hi_] if r["g"] == g]) for k, d in defs.items()}
+            env = {k: pyagg(d["fn"], [absv(r.get(d["arg"]), d) for r in rows[lo:hi_] if r["g"] == g], d.get("p", 0)) for k, d in defs.items()}
             if any(null_plus(strip(it["e"]), env) for it in sel) or null_plus(strip(having), env):
                 return None
         lo = hi_
